@@ -606,7 +606,7 @@ def grid_layout(context, box, bottom_space, skip_stack, containing_block,
         row_gap = percentage(row_gap, refer_to)
 
     if grid_areas == 'none':
-        grid_areas = ((None,),)
+        grid_areas = ()
     grid_areas = [list(row) for row in grid_areas]
 
     rows = _get_template_tracks(box.style['grid_template_rows'])
@@ -633,6 +633,10 @@ def grid_layout(context, box, bottom_space, skip_stack, containing_block,
         for _ in range(-columns_diff):
             columns.append(next(auto_columns))
             columns.append([])
+
+    # The explicit grid can have no rows or no columns.
+    explicit_rows = len(rows) // 2
+    explicit_columns = len(columns) // 2
 
     # Add implicit line names
     for y, row in enumerate(grid_areas):
@@ -711,9 +715,9 @@ def grid_layout(context, box, bottom_space, skip_stack, containing_block,
     # 1.3.1 Start with the columns (resp. rows) from the explicit grid.
     implicit_second_1 = 0
     if second_flow == 'column':
-        implicit_second_2 = len(grid_areas[0]) if grid_areas else 0
+        implicit_second_2 = explicit_columns
     else:
-        implicit_second_2 = len(grid_areas)
+        implicit_second_2 = explicit_rows
     # 1.3.2 Add columns (resp. rows) to the beginning and end of the implicit grid.
     remaining_grid_items = []
     for child in children:
@@ -748,9 +752,9 @@ def grid_layout(context, box, bottom_space, skip_stack, containing_block,
     # 1.4 Position the remaining grid items.
     implicit_first_1 = 0
     if first_flow == 'row':
-        implicit_first_2 = len(grid_areas)
+        implicit_first_2 = explicit_rows
     else:
-        implicit_first_2 = len(grid_areas[0]) if grid_areas else 0
+        implicit_first_2 = explicit_columns
     for position in children_positions.values():
         if first_flow == 'row':
             _, i, _, size = position
@@ -977,16 +981,19 @@ def grid_layout(context, box, bottom_space, skip_stack, containing_block,
     else:
         implicit_x1, implicit_x2 = implicit_first_1, implicit_first_2
         implicit_y1, implicit_y2 = implicit_second_1, implicit_second_2
+    # Keep one track when there is neither explicit track nor grid item.
+    implicit_x2 = max(implicit_x2, implicit_x1 + 1)
+    implicit_y2 = max(implicit_y2, implicit_y1 + 1)
     for _ in range(0 - implicit_x1):
         columns.insert(0, next(auto_columns_back))
         columns.insert(0, [])
-    for _ in range(len(grid_areas[0]) if grid_areas else 0, implicit_x2):
+    for _ in range(explicit_columns, implicit_x2):
         columns.append(next(auto_columns))
         columns.append([])
     for _ in range(0 - implicit_y1):
         rows.insert(0, next(auto_rows_back))
         rows.insert(0, [])
-    for _ in range(len(grid_areas), implicit_y2):
+    for _ in range(explicit_rows, implicit_y2):
         rows.append(next(auto_rows))
         rows.append([])
     # Count positions from the first implicit track.
